@@ -25,13 +25,15 @@ ASSUMPTIONS = [
     "inputs whose re-read fails under BOTH configurations are not comparable and are counted (C11 judges re-readability)",
     "VERS and WRAP items are excluded from the comparison, as the statement says",
 ]
-REQUIRED = ["pairs_compared", "pairs_12_vs_20", "pairs_wrap_vs_nowrap", "pairs_with_table_and_other_well_items", "corpus_pairs", "generated_pairs", "pairs_source_case_lower", "pairs_source_case_preserve", "inputs_with_wide_tables", "pairs_with_rows_over_256_chars"]
+REQUIRED = ["pairs_compared", "pairs_12_vs_20", "pairs_wrap_vs_nowrap", "pairs_with_table_and_other_well_items", "corpus_pairs", "generated_pairs", "pairs_source_case_lower", "pairs_source_case_preserve", "inputs_with_wide_tables", "pairs_with_rows_over_256_chars", "pairs_header_style_differs_with_column_fmt"]
 SOFT_DEADLINE = {"quick": 100, "thorough": 1500}
 LEVEL_TEXT = "Metamorphic exploration over pairs of writer configurations; equality of the two re-reads is the oracle."
 LEVEL_NOTE = "Equality of two observed executions; trusts the canonical snapshot; configurations outside the listed dimensions are not covered."
 TECHNIQUE = "runtime monitoring: metamorphic relation between two observed write->read executions over configuration pairs"
 
-FMTS = [{}, {"fmt": "%.3f"}, {"fmt": "%.6e"}, {"fmt": "%.2f", "column_fmt": {"0": "%.4f"}}]
+FMTS = [{}, {"fmt": "%.3f"}, {"fmt": "%.6e"}, {"fmt": "%.2f", "column_fmt": {"0": "%.4f"}},
+        # per-column formats keyed on the last / a middle column ("last" is resolved to the curve count at run time)
+        {"fmt": "%.4f", "column_fmt": {"last": "%.1f"}}, {"column_fmt": {"last": "%.2f", "1": "%.3f"}}, {"fmt": "%.3f", "column_fmt": {"0": "%.2f", "last": "%.6f"}}]
 
 
 def corpus():
@@ -75,6 +77,11 @@ def grid(tier):
                "src_case": ["upper", "lower", "preserve"][k % 3]}
 
 
+    for fi in range(len(FMTS)):
+        for j, cfgs in enumerate((({"mnemonics_header": True}, {}), ({"mnemonics_header": True, "version": 1.2}, {"version": 2, "data_section_header": "~A"}),
+                                  ({"mnemonics_header": True, "wrap": True}, {"wrap": False}))):
+            yield {"input": "gen", "seed": 3000 + 10 * fi + j, "cfg1": cfgs[0], "cfg2": cfgs[1], "fmt": fi, "gen_version": 2 if j % 2 else 1.2, "src_case": "upper"}
+            yield {"input": "tests/examples/sample.las", "cfg1": cfgs[0], "cfg2": cfgs[1], "fmt": fi}
     # wide tables: data rows of every length relative to the 79 / 255 / 256-character marks, with and without wrapping
     k = 0
     for extra in (5, 6, 13, 20, 22, 23, 24, 27, 29, 34, 41, 55):
@@ -100,11 +107,11 @@ def random_case(rng, tier):
     return c
 
 
-def _kw(c, f):
+def _kw(c, f, ncurves=1):
     kw = dict(c)
     kw.update(f)
     if "column_fmt" in kw:
-        kw["column_fmt"] = {int(k): v for k, v in kw["column_fmt"].items()}
+        kw["column_fmt"] = {(ncurves - 1 if k == "last" else int(k)): v for k, v in kw["column_fmt"].items()}
     return kw
 
 
@@ -165,7 +172,7 @@ def run_case(case, ctx):
             return
         b = io.StringIO()
         try:
-            x.write(b, **_kw(cfg, f))
+            x.write(b, **_kw(cfg, f, len(x.curves)))
         except Exception as e:
             ctx.count("skipped_write_raised")
             ctx.seen("write_failures", "%s: %s" % (case["input"], type(e).__name__))
@@ -197,6 +204,8 @@ def run_case(case, ctx):
         ctx.count("pairs_12_vs_20")
     if bool(cfg1.get("wrap")) != bool(cfg2.get("wrap")):
         ctx.count("pairs_wrap_vs_nowrap")
+    if bool(cfg1.get("mnemonics_header")) != bool(cfg2.get("mnemonics_header")) and "column_fmt" in f:
+        ctx.count("pairs_header_style_differs_with_column_fmt")
     names = [it.original_mnemonic.upper() for it in src.well]
     table = {"STRT", "STOP", "STEP", "NULL"}
     rich = len([n for n in names if n in table]) >= 1 and len([n for n in names if n not in table]) >= 2
